@@ -165,6 +165,29 @@ class Layout:
 
 # ------------------------------------------------------------------------------------------ payloads
 
+def shape_path(rng, p, D):
+    """the same file named the way editors name it: absolute, relative to D, file:// URIs, Windows spellings,
+    plus names whose first characters are not ASCII (byte-index slicing of a path must stay on char boundaries)"""
+    rel = os.path.relpath(p, D) if D and os.path.isabs(p) and os.path.isabs(D) else p
+    r = rng.random()
+    if r < 0.30:
+        return p
+    if r < 0.45:
+        return rel
+    if r < 0.55:
+        return "file://" + p
+    if r < 0.62:
+        return "file://localhost" + p
+    if r < 0.78:
+        return rng.choice(["übersicht.txt", "aé.txt", "é", "é:", "日本/語.txt", "😀.txt", "x😀y/z.txt",
+                           "é/" + rel, "́leading-combining.txt"])
+    return rng.choice(["C:\\work\\f.txt", "c:rel.txt", "1:notes.txt", ":", "\\\\srv\\share\\f.txt", "file:///C:/work/f.txt", "file://", "file://localhost",
+                       " " + p + " ", rel + "/", "./" + rel, "a/../" + rel, "~/" + rel, "-" + rel, "%2e%2e/" + rel, "x", ".", ".."])
+
+
+PATHY_KEYS = ("path", "file", "uri", "cwd", "dir", "folder", "root")
+
+
 def base_payload(preset, rng, L, human, paths, D, extra):
     """(payload object or None for mock_ai, expected AgentRun for the model or None)"""
     uuid = "3f2a9c1e-0000-4000-8000-%012x" % rng.randrange(1 << 48)
@@ -202,6 +225,34 @@ def base_payload(preset, rng, L, human, paths, D, extra):
             o["file_path"] = p0
         ok = extra.get("cursor_db")
         return o, (run("ai_agent", D, [p0] if p0 else None) if ok else None)
+    if preset == "github-copilot" and rng.random() < 0.45:
+        # VS Code native hooks (PreToolUse / PostToolUse): the only route into normalize_hook_path,
+        # collect_tool_paths and the transcript-path sniffing. Not predicted by the model (expected None):
+        # exit status, panic markers and "entries only in containing repositories" are the oracles.
+        tool = rng.choice(["create_file", "replace_string_in_file", "insert_edit_into_file", "copilot_insertEdit", "apply_patch",
+                           "multiEdit", "write", "vscode_editFile_internal", "read_file", "delete_file"])
+        tp = rng.choice([f"{tdir}/User/workspaceStorage/ab12/chatSessions/{uuid}.json",
+                         f"{tdir}/User/globalStorage/github.copilot-chat/transcripts/{uuid}.jsonl",
+                         f"{tdir}/.claude/projects/-p/{uuid}.jsonl", f"{tdir}/copilot_session_{uuid}.json", None])
+        ev = "PreToolUse" if human else "PostToolUse"
+        camel = rng.random() < 0.3
+        o = {("hookEventName" if camel else "hook_event_name"): ev, rng.choice(["cwd", "workspace_folder", "workspaceFolder"]): D,
+             rng.choice(["session_id", "chat_session_id", "sessionId"]): uuid, ("toolName" if camel else "tool_name"): tool}
+        if tp is not None:
+            o[rng.choice(["transcript_path", "transcriptPath", "chat_session_path"])] = tp
+        shaped = [shape_path(rng, x, D) for x in paths]
+        ti = {}
+        if shaped:
+            k = rng.choice(["filePath", "file_path", "path", "fsPath", "files", "filePaths", "uri"])
+            ti[k] = shaped if k in ("files", "filePaths") and rng.random() < 0.7 else shaped[0]
+            if len(shaped) > 1 and rng.random() < 0.5:
+                ti["edits"] = [{"uri": {"fsPath": x, "external": "file://" + x}} for x in shaped[1:]]
+        o["toolInput" if camel else "tool_input"] = ti
+        if rng.random() < 0.4:
+            o["tool_response" if not camel else "toolResponse"] = {"files": shaped, "note": "file://" + (shaped[0] if shaped else "/nowhere")}
+        if rng.random() < 0.3:
+            o["will_edit_filepaths" if human else "edited_filepaths"] = shaped
+        return o, None
     if preset == "github-copilot":
         if human:
             o = {"hook_event_name": "before_edit", "workspace_folder": D, "will_edit_filepaths": list(paths)}
@@ -277,7 +328,8 @@ def mutate(rng, obj, tier, L, preset):
     o = json.loads(json.dumps(obj))
     lv = list(leaves(o))
     kind = rng.choice(["truncate", "truncate", "typeswap", "typeswap", "delete", "delete", "huge", "many-paths", "non-json",
-                       "bom", "empty", "bad-utf8", "deep", "null-root", "array-root", "dup-key", "nul-char", "big-number"])
+                       "bom", "empty", "bad-utf8", "deep", "null-root", "array-root", "dup-key", "nul-char", "big-number",
+                       "path-shape", "path-shape", "path-shape"])
     text = json.dumps(o)
     if kind == "truncate":
         cut = rng.randrange(0, max(1, len(text)))
@@ -326,6 +378,19 @@ def mutate(rng, obj, tier, L, preset):
     if kind == "deep":
         d = rng.choice([200, 5000, 100000])
         return (b"[" * d) + (b"]" * d), f"deep:{d}", True
+    if kind == "path-shape":
+        # every path-like string (by key name, or an absolute path / URI by value) is re-spelled
+        D = L.wd
+        n = 0
+        for path, v in lv:
+            if not isinstance(v, str) or not v:
+                continue
+            keyish = any(isinstance(k, str) and any(t in k.lower() for t in PATHY_KEYS) for k in path)
+            if (keyish or v.startswith("/") or v.startswith("file:")) and rng.random() < 0.7:
+                if any(isinstance(k, str) and k.lower() in ("cwd", "workspace_folder", "workspacefolder", "repo_working_dir") for k in path) and rng.random() < 0.8:
+                    continue        # mostly keep the working directory so the paths are still resolved against a repository
+                set_at(o, path, shape_path(rng, v, D)); n += 1
+        return json.dumps(o).encode(), kind, False
     if kind == "null-root":
         return rng.choice([b"null", b"true", b"0", b"\"str\""]), kind, False
     if kind == "array-root":
